@@ -1482,7 +1482,10 @@ func (a *Authenticator) storeClientSession(negotiation *SecurityNegotiation, dur
 	}
 
 	// Create session entry with remote address (using sinful string)
-	entry := NewSessionEntry(negotiation.SessionId, serverAddr, keyInfo, policy, expiration, lease, "")
+	// File the session and its command routes under the security tag of this
+	// handshake: lookups use the tag, so a session filed under the empty tag would
+	// never be found by its own tag and would instead be ridden by untagged handshakes.
+	entry := NewSessionEntry(negotiation.SessionId, serverAddr, keyInfo, policy, expiration, lease, a.config.SecurityTag)
 
 	// Store in cache
 	cache.Store(entry)
@@ -1493,7 +1496,7 @@ func (a *Authenticator) storeClientSession(negotiation *SecurityNegotiation, dur
 		for _, cmd := range commands {
 			cmd = strings.TrimSpace(cmd)
 			if cmd != "" {
-				cache.MapCommand("", serverAddr, cmd, negotiation.SessionId)
+				cache.MapCommand(a.config.SecurityTag, serverAddr, cmd, negotiation.SessionId)
 			}
 		}
 	}
